@@ -15,7 +15,7 @@ import ast
 
 from ..index import AnchorMissing, Unrecognised
 from ..cfg import CFG
-from ..astutil import u, body_walk, local_env, func_calls, walk_local, single_return_expr, inline_locals, straightline_return
+from ..astutil import linear_body, u, body_walk, local_env, func_calls, walk_local, single_return_expr, inline_locals, straightline_return
 from ..pend import edge_facts
 from .. import sym, schema, memo
 
@@ -212,11 +212,13 @@ def r5_header_separation(ctx):
         cev(ix.cls(FB, "FileBuffer").attrs["COMMENT"]) == 0
     ctx.ob("bionumpy/io/delimited_buffers.py COMMENT", "header lines start with '#' (delimited formats) / '@' (SAM); formats without headers declare none", ok, "", key="C02-R5|comment-chars")
     rh = ix.func(FB, "FileBuffer.read_header")
-    loops = [n for n in rh.node.body if isinstance(n, ast.For)]
+    loops = [n for n in linear_body(rh.node) if isinstance(n, ast.For)]
     ctx.need(len(loops) == 1, "read_header: loop over lines not found")
-    txt = [u(s) for s in loops[0].body]
+    lb = linear_body(loops[0])
     fo = rh.params[1]
-    ok = txt == [f"if line[0] != comment:\n    {fo}.seek(-len(line), 1)\n    break", "header.append(line.decode('utf-8'))"] and u(loops[0].iter) == fo
+    txt = [u(s.test) + " -> " + "; ".join(u(x) for x in s.body) if isinstance(s, ast.If) else u(s) for s in lb]
+    ok = len(lb) == 2 and isinstance(lb[0], ast.If) and sym.canon(lb[0].test) == sym.canon(sym.parse_expr("line[0] != comment")) and \
+        [u(x) for x in lb[0].body] == [f"{fo}.seek(-len(line), 1)", "break"] and u(lb[1]) == "header.append(line.decode('utf-8'))" and u(loops[0].iter) == fo
     ctx.ob(rh.where, "header = the leading lines that start with the comment character; the first other line is pushed back (seek by -len) and belongs to the data",
            ok, " | ".join(txt), key="C02-R5|read-header")
     over = []
@@ -231,7 +233,7 @@ def r5_header_separation(ctx):
     # interior comments (GFF / wig)
     ic = ix.func(DB, "DelimitedBufferWithInernalComments._calculate_col_starts_and_ends")
     env = {}
-    for s in ic.node.body:
+    for s in linear_body(ic.node):
         if isinstance(s, ast.Assign) and isinstance(s.targets[0], ast.Name):
             env.setdefault(s.targets[0].id, []).append(s.value)
     d, dl = ic.params[1], ic.params[2]
@@ -245,7 +247,7 @@ def r6_field_table(ctx):
     ix = ctx.index
     fr = ix.func(DB, "DelimitedBuffer.from_raw_buffer")
     env = {}
-    for s in fr.node.body:
+    for s in linear_body(fr.node):
         if isinstance(s, ast.Assign) and isinstance(s.targets[0], ast.Name):
             env.setdefault(s.targets[0].id, []).append(s.value)
     ch = fr.params[1]
@@ -261,7 +263,7 @@ def r6_field_table(ctx):
     ctx.ob(nf.where, "column count = number of boundaries on the first line", sym.same(single_return_expr(nf.node), f"{nf.params[1]}[0] + 1"), "", key="C02-R6|n-fields")
     be = ix.func(DB, "DelimitedBuffer._get_buffer_extractor")
     env = {}
-    for s in be.node.body:
+    for s in linear_body(be.node):
         if isinstance(s, ast.Assign) and isinstance(s.targets[0], ast.Name):
             env.setdefault(s.targets[0].id, []).append(s.value)
     d, dl, nc = be.params[1:4]
